@@ -167,7 +167,15 @@ def c04_dest(rng: Rng):
     if not (st.ok and st.deferred):
         return s, f, c, {"skipped": "deferred procedure not active"}
     base = sorted(p for p in first if pdu_kind(p) == "nak")
-    for e in range(1, nlim + 2):
+    # "progress resets the count": after j silent expiries (0 < j < limit) one of several missing
+    # tiles arrives (it may close only a part of a gap); the count of consecutive expiries without
+    # progress starts again from zero and the timer is restarted
+    j_progress = rng.randrange(1, nlim) if (nlim > 1 and len(lost) > 1 and rng.chance(0.6)) else None
+    e = 0
+    while True:
+        e += 1
+        if e > nlim + 1:
+            break
         if rng.chance(0.4):
             s.tick(nms - 1)
             st0 = s.sm("D")
@@ -184,15 +192,33 @@ def c04_dest(rng: Rng):
             break
         naks = sorted(p for p in got if pdu_kind(p) == "nak")
         if e < nlim:
-            if naks != base or st.flt or st.nak != e:
+            if (base is not None and naks != base) or not naks or st.flt or st.nak != e:
                 f.add("C04:dest:nak-expiry-below-limit",
                       {"expiry": e, "limit": nlim, "naks": len(naks), "flt": st.flt, "counter": st.nak}, len(s.ops) - 1)
                 break
+            base = naks
         else:
             if not (len(st.flt) == 1 and ind_parts(st.flt[0])[1][1] == "7") or naks:
                 f.add("C04:dest:nak-limit-fault-at-Nth-expiry",
                       {"expiry": e, "limit": nlim, "flt": st.flt, "naks": len(naks)}, len(s.ops) - 1)
             break
+        if j_progress is not None and e == j_progress:
+            j_progress = None
+            i = rng.choice(sorted(lost))
+            lost.discard(i)
+            off, ln = tiles[i]
+            s.tick(rng.randrange(0, nms))
+            st = s.sm("D", g.fd(h, off, c.data[off:off + ln]))
+            got = s.drain("D")
+            if not st.ok or st.flt or st.nak != 0:
+                f.add("C04:dest:progress-does-not-reset-nak-count",
+                      {"after_expiries": e, "limit": nlim, "counter": st.nak if st.ok else None, "flt": st.flt},
+                      len(s.ops) - 1)
+                break
+            if any(pdu_kind(p) == "nak" for p in got):
+                f.add("C04:dest:nak-activity-before-expiry", {"pdus": got[:2], "after": "progress"}, len(s.ops) - 1)
+                break
+            e, base = 0, None
     return s, f, c, {"which": which}
 
 
